@@ -48,6 +48,26 @@ pub fn finding(tags: &'static [&'static str], msg: String) -> Finding {
 
 const LT_OWNED: [u16; 6] = [T_USERNAME, T_USERHASH, T_REALM, T_NONCE, T_PASSWORD_ALGORITHM, T_PASSWORD_ALGORITHMS];
 
+/// The algorithm that keys a long-term session, when the harness can know it: announced in this packet, announced
+/// earlier in the session, or forced because the offer contains at most one supported algorithm.
+pub fn key_alg_certain(s: &LtSess, announced_now: Option<u16>) -> Option<u16> {
+    if let Some(a) = announced_now.or(s.chosen) {
+        return Some(a);
+    }
+    match &s.algs {
+        None => Some(1),
+        Some(l) => {
+            let md5 = l.iter().any(|a| a.id == 1);
+            let sha = l.iter().any(|a| a.id == 2);
+            match (md5, sha) {
+                (true, false) => Some(1),
+                (false, true) => Some(2),
+                _ => None,
+            }
+        }
+    }
+}
+
 /// Application attribute list -> what StunAttributes::add keeps (one per type, first-insertion position,
 /// last value; integrity/fingerprint kept apart).  Values are the constructor-normalised ones.
 pub fn app_model(attrs: &[RAttr]) -> (Vec<RAttr>, Option<RAttr>, Option<RAttr>, Option<RAttr>) {
@@ -123,6 +143,7 @@ pub fn check_packet(
     let mut exp_mi: Option<Vec<u8>> = None; // key bytes the MI must verify under
     let mut exp_sha: Option<Vec<u8>> = None;
     let mut chosen_alg = None;
+    let mut skip_mac_check = false;
     match cred {
         CredView::None => {
             if let Some(RAttr::Mi(MacSpec::Keyed { key, .. })) = &app_mi {
@@ -184,11 +205,10 @@ pub fn check_packet(
                         }
                     }
                 }
-                let preferred = match &s.algs {
-                    Some(l) if l.iter().any(|a| a.id == 2) => 2,
-                    _ => 1,
-                };
-                let alg_for_key = chosen_alg.or(s.chosen).unwrap_or(preferred);
+                // which algorithm keys this session?  the one the client announced; without an announcement it is only
+                // determined when the offer leaves no choice (the property does not fix the preference among offered ones)
+                let certain = key_alg_certain(s, chosen_alg);
+                let alg_for_key = certain.unwrap_or(1);
                 let key = KeySpec::LongTerm {
                     user: ref_opaque(&cfg.user),
                     realm: s.realm.clone(),
@@ -206,7 +226,8 @@ pub fn check_packet(
                         soft: false,
                     });
                 } else if s.algs.is_some() {
-                    exp_sha = Some(key);
+                    exp_sha = Some(if certain.is_some() { key } else { Vec::new() });
+                    skip_mac_check = certain.is_none();
                 } else {
                     exp_mi = Some(key);
                 }
@@ -283,7 +304,7 @@ pub fn check_packet(
             },
             RAttr::MiSha256(_) => match &exp_sha {
                 Some(k) => {
-                    if !verify_at(bytes, wa, k) {
+                    if !skip_mac_check && !verify_at(bytes, wa, k) {
                         out.push(finding(mech_tags, "MESSAGE-INTEGRITY-SHA256 does not verify under the configured credentials (reference HMAC-SHA256)".into()));
                     }
                 }
